@@ -25,6 +25,11 @@ type ConcCase struct {
 	Shift       time.Duration
 	Weights     Weights
 	SharedPct   int // % of allocations that use a handle shared between clients
+	OtherPct    int // % of affinity-release steps aimed at another host's affinities (default 30)
+	// Epilogue: after the last phase a fresh client on a PRNG-chosen host claims every block of
+	// every pool (ClaimAffinity on the pool CIDRs), fault-free.  This makes latent inconsistencies
+	// (for example a confirmed affinity whose block is gone) collide with a new owner.
+	Epilogue bool
 	Tracker     TrackerOpts
 	// Oracles applied after each run.
 	CheckReturned bool // returned addresses were recorded under the caller's handle by the caller's own write
@@ -134,8 +139,12 @@ func (cc *ConcCase) script(w *World, st *clientState) Script {
 			st.handles = append(st.handles, h)
 			return h
 		}
+		otherPct := cc.OtherPct
+		if otherPct == 0 {
+			otherPct = 30
+		}
 		otherHost := func() string {
-			if r.Intn(100) < 70 {
+			if r.Intn(100) >= otherPct {
 				return "" // own
 			}
 			return hosts[r.Intn(len(hosts))]
@@ -321,6 +330,22 @@ func (cc *ConcCase) Run(plan RunPlan) *RunOutcome {
 		}
 		if ph+1 < phases && cc.Shift > 0 {
 			w.Store.ShiftTimestamps(cc.Shift)
+		}
+	}
+	if cc.Epilogue && out.Inconclusive == "" {
+		lc := w.AddClient(cc.hosts()[R.Intn(len(cc.hosts()))])
+		pr := w.RunPhase(PhaseOpts{Mode: plan.Mode, Rand: R, Depth: plan.Depth, Steps: 100, Watchdog: 40 * time.Second}, []*LClient{lc},
+			[]Script{func(lc *LClient, r *rand.Rand, exec func(Step) *OpRec) {
+				for _, p := range cc.Spec.Pools {
+					if exec(Step{Kind: KClaimAffinity, CIDR: p.CIDR}).Crashed {
+						return
+					}
+				}
+			}})
+		out.Phases = append(out.Phases, pr)
+		if pr.Stuck {
+			out.Inconclusive = "scheduler-watchdog"
+			return out
 		}
 	}
 	ops := w.Ops()
